@@ -5,8 +5,12 @@ import (
 	"context"
 	"encoding/json"
 	"flag"
+	"fmt"
 	"os"
 	"runtime"
+	"runtime/pprof"
+	"sort"
+	"strings"
 	"sync"
 	"time"
 
@@ -36,9 +40,18 @@ type cresult struct {
 	// the scan never began).
 	ScanStart int            `json:"scan_start"`
 	ReadLen   map[string]int `json:"read_len,omitempty"` // Worker.Read label -> reply length
-	Hosts     []string       `json:"hosts"`
-	Killed    []string       `json:"killed"`
-	Ms        int64          `json:"ms"`
+	// ReadBounds: Worker.Read label -> offsets at which an encoded batch ends
+	// inside the reply (the last one equals the reply length).
+	ReadBounds map[string][]int `json:"read_bounds,omitempty"`
+	Hosts      []string         `json:"hosts"`
+	Killed     []string         `json:"killed"`
+	// DeadCall: labels of calls whose callee was already dead when called
+	// (killing it again would be a no-op).
+	DeadCall []string `json:"dead_call,omitempty"`
+	// Spurious: machines the driver declared stopped although nobody killed
+	// them (a keepalive timed out under load): losses that were not enumerated.
+	Spurious []string `json:"spurious,omitempty"`
+	Ms       int64    `json:"ms"`
 	// NotRun: the child gave up before this case (an earlier case hung).
 	NotRun bool `json:"not_run,omitempty"`
 	// Crash is set by the parent when the child died while running this case.
@@ -47,9 +60,27 @@ type cresult struct {
 
 const hangTimeout = 60 * time.Second
 
+// loadTolerant is the vsys cluster with a keepalive that survives scheduling
+// stalls of up to ~200 ms (16 cluster processes share the cores): a machine is
+// declared dead 200 ms after it stopped answering (vsys default: 60 ms), a
+// single keepalive call may take 100 ms (vsys default: 30 ms). Without this,
+// machines are lost spuriously under load; that would not invalidate the oracle
+// (a loss is a loss) but would add losses that were not enumerated.
+type loadTolerant struct{ *vsys.System }
+
+func (loadTolerant) KeepaliveConfig() (period, timeout, rpcTimeout time.Duration) {
+	return 20 * time.Millisecond, 200 * time.Millisecond, 100 * time.Millisecond
+}
+
 func setup() {
 	vsys.Quiet()
 	vsys.FastRetries()
+	// retryReader: the production number of retries (5) with back-offs of
+	// 5..80 ms (155 ms in total; production 5..60 s). vsys.FastRetries' 1..5 ms
+	// (13 ms in total) is of the order of a goroutine wake-up under load: the
+	// reader could give up before the driver has marked the tasks of a stopped
+	// machine LOST, which in production takes microseconds against 135 s.
+	exec.VerifC02SetRetryPolicy(5*time.Millisecond, 80*time.Millisecond, 2, 5)
 	exec.DoShuffleReaders = false
 	// Several encoded batches per task output (chunk = 4 rows; must be a power of two for the combiner hash table).
 	if err := flag.Set("bigslice-internal-default-chunk-rows", "4"); err != nil {
@@ -62,31 +93,102 @@ func runCase(c fcase) cresult {
 	r := cresult{ID: c.ID, ScanStart: -1}
 	p := programByName(c.Prog)
 	exec.VerifSetMaxConsecutiveLost(c.Mode != "M1")
-	sys := vsys.New(2, c.Faults...)
+	// Faults whose victim is "other:<k>" kill the k-th machine (by name) other
+	// than the callee that is alive and has already served a Worker call (a
+	// machine still booting is given 9 minutes by bigmachine before the driver
+	// gives up on it: not a hang, but far beyond the watchdog). They are driven
+	// from the hooks; all other faults are vsys faults.
+	var vfaults []vsys.Fault
+	vindex := []int{}
+	for i, f := range c.Faults {
+		if !strings.HasPrefix(f.Victim, "other:") {
+			vfaults = append(vfaults, f)
+			vindex = append(vindex, i)
+		}
+	}
+	sys := vsys.New(2, vfaults...)
 	var mu sync.Mutex
+	served := map[string]bool{}
+	ofired := make([]bool, len(c.Faults))
+	ovictim := make([]string, len(c.Faults))
+	// otherVictim is called with mu held.
+	otherVictim := func(f vsys.Fault, callee string) string {
+		var k int
+		fmt.Sscanf(f.Victim, "other:%d", &k)
+		var cands []string
+		for h := range served {
+			if h != callee && sys.Alive(h) {
+				cands = append(cands, h)
+			}
+		}
+		sort.Strings(cands)
+		if k < len(cands) {
+			return cands[k]
+		}
+		return ""
+	}
 	readLen := map[string]int{}
+	readBounds := map[string][]int{}
 	callee := make([]string, len(c.Faults))
+	var deadCall []string
 	sys.Hook = func(call *vsys.Call) error {
+		if call.Label != "" && !sys.Alive(call.Host) {
+			mu.Lock()
+			deadCall = append(deadCall, call.Label)
+			mu.Unlock()
+		}
+		mu.Lock()
+		defer mu.Unlock()
+		if call.Label != "" && sys.Alive(call.Host) {
+			served[call.Host] = true
+		}
 		for i, f := range c.Faults {
-			if f.Label == call.Label {
-				mu.Lock()
-				callee[i] = call.Host
-				mu.Unlock()
+			if f.Label != call.Label {
+				continue
+			}
+			callee[i] = call.Host
+			if strings.HasPrefix(f.Victim, "other:") && !ofired[i] {
+				if v := otherVictim(f, call.Host); v != "" {
+					ofired[i] = true
+					ovictim[i] = v
+					if f.Variant == "before" {
+						sys.Kill(v)
+					}
+				}
 			}
 		}
 		return nil
 	}
 	sys.After = func(call *vsys.Call, status int, body []byte) {
+		mu.Lock()
+		for i, f := range c.Faults {
+			if f.Label == call.Label && ovictim[i] != "" {
+				switch f.Variant {
+				case "after":
+					sys.Kill(ovictim[i])
+				case "afterreply":
+					go sys.Kill(ovictim[i])
+				}
+			}
+		}
+		mu.Unlock()
 		if call.Method == "Worker.Read" && status == 200 {
 			mu.Lock()
 			if len(body) > readLen[call.Label] {
 				readLen[call.Label] = len(body)
+				readBounds[call.Label] = batchBounds(body)
 			}
 			mu.Unlock()
 		}
 	}
-	sess := exec.Start(exec.Bigmachine(sys), exec.Parallelism(4))
+	tStart := time.Now()
+	sess := exec.Start(exec.Bigmachine(loadTolerant{sys}), exec.Parallelism(4))
 	t0 := time.Now()
+	if os.Getenv("C02_TRACE") != "" {
+		defer func() {
+			os.Stderr.WriteString(fmt.Sprintf("case %d: start %v run %dms total %v\n", c.ID, t0.Sub(tStart), r.Ms, time.Since(tStart)))
+		}()
+	}
 	done := make(chan outcome, 1)
 	scanStart := make(chan int, 1)
 	go func() {
@@ -117,11 +219,26 @@ func runCase(c fcase) cresult {
 	}
 	r.Ms = time.Since(t0).Milliseconds()
 	r.History = sys.History()
-	r.Fired = sys.Fired()
+	r.Fired = make([]bool, len(c.Faults))
+	for j, fd := range sys.Fired() {
+		r.Fired[vindex[j]] = fd
+	}
 	r.Hosts = sys.Hosts()
 	r.Killed = sys.Killed()
+	for _, a := range exec.VerifC02StoppedMachines(sess) {
+		if h := strings.TrimPrefix(a, "http://"); !contains(r.Killed, h) {
+			r.Spurious = append(r.Spurious, h)
+		}
+	}
 	mu.Lock()
 	r.ReadLen = readLen
+	r.ReadBounds = readBounds
+	for i := range ofired {
+		if ofired[i] {
+			r.Fired[i] = true
+		}
+	}
+	r.DeadCall = deadCall
 	r.Callee = callee
 	mu.Unlock()
 	r.FiredAt = make([]int, len(c.Faults))
@@ -136,13 +253,12 @@ func runCase(c fcase) cresult {
 			}
 		}
 	}
+	// Not sess.Shutdown(): it waits 20 s for log tails that verifsystem does not
+	// have. Stopping every machine ends the keepalive loops of this session so
+	// that it does not load the next case of the batch.
 	if !r.Hung {
-		// Shutdown may block on dead machines; it is not part of the property.
-		sd := make(chan struct{})
-		go func() { sess.Shutdown(); close(sd) }()
-		select {
-		case <-sd:
-		case <-time.After(5 * time.Second):
+		for _, h := range r.Hosts {
+			sys.Kill(h)
 		}
 	}
 	return r
@@ -151,6 +267,11 @@ func runCase(c fcase) cresult {
 // childMain runs the batch in file path and prints one JSON line per case.
 func childMain(path string) {
 	setup()
+	if pf := os.Getenv("C02_PROF"); pf != "" {
+		f, _ := os.Create(pf)
+		pprof.StartCPUProfile(f)
+		defer pprof.StopCPUProfile()
+	}
 	b, err := os.ReadFile(path)
 	if err != nil {
 		os.Stderr.WriteString("c02 child: " + err.Error() + "\n")
@@ -176,5 +297,42 @@ func childMain(path string) {
 		enc.Encode(r)
 		w.Flush()
 	}
+	pprof.StopCPUProfile()
 	os.Exit(0)
+}
+
+// batchBounds returns the offsets at which the encoded batches of a task
+// output end. The stream (sliceio/codec.go) is a gob stream; every batch ends
+// with its checksum, a top-level uint (gob type id 3, encoded 0x06); every gob
+// message is prefixed by its length. nil if the bytes do not parse as a whole
+// number of messages (then only the generic cut points are used).
+func batchBounds(b []byte) []int {
+	var out []int
+	i := 0
+	for i < len(b) {
+		// message length: unsigned gob integer
+		n := 0
+		c := b[i]
+		i++
+		if c < 128 {
+			n = int(c)
+		} else {
+			k := int(^c) + 1 // number of bytes = -int8(c)
+			if k > 8 || i+k > len(b) {
+				return nil
+			}
+			for j := 0; j < k; j++ {
+				n = n<<8 | int(b[i+j])
+			}
+			i += k
+		}
+		if n <= 0 || i+n > len(b) {
+			return nil
+		}
+		if b[i] == 0x06 {
+			out = append(out, i+n)
+		}
+		i += n
+	}
+	return out
 }
